@@ -1,0 +1,63 @@
+package envelope
+
+import (
+	"bytes"
+	"errors"
+	"io"
+
+	"github.com/ipld/go-ipld-prime"
+	"github.com/ipld/go-ipld-prime/codec/dagcbor"
+	"github.com/ipld/go-ipld-prime/datamodel"
+)
+
+// ErrNotCanonical is returned when sealed data is not the canonical DAG-CBOR
+// encoding of what it decodes to.
+var ErrNotCanonical = errors.New("sealed data is not canonical DAG-CBOR")
+
+// DecodeSealed decodes sealed (DAG-CBOR) data into an IPLD node and verifies
+// that the data is the canonical encoding of that node. The decoder is lenient
+// (non-minimal lengths, indefinite-length items, unsorted map keys, ...) and
+// the signature is verified over the re-encoded node, so without this check
+// the same signed token could be carried by many byte strings, each with a
+// different CID.
+func DecodeSealed(data []byte) (datamodel.Node, error) {
+	node, err := ipld.Decode(data, dagcbor.Decode)
+	if err != nil {
+		return nil, err
+	}
+
+	if err := verifyCanonical(node, data); err != nil {
+		return nil, err
+	}
+
+	return node, nil
+}
+
+// DecodeSealedReader is the same as DecodeSealed, but accept an io.Reader.
+func DecodeSealedReader(r io.Reader) (datamodel.Node, error) {
+	var buf bytes.Buffer
+
+	node, err := ipld.DecodeStreaming(io.TeeReader(r, &buf), dagcbor.Decode)
+	if err != nil {
+		return nil, err
+	}
+
+	if err := verifyCanonical(node, buf.Bytes()); err != nil {
+		return nil, err
+	}
+
+	return node, nil
+}
+
+func verifyCanonical(node datamodel.Node, data []byte) error {
+	canonical, err := ipld.Encode(node, dagcbor.Encode)
+	if err != nil {
+		return err
+	}
+
+	if !bytes.Equal(canonical, data) {
+		return ErrNotCanonical
+	}
+
+	return nil
+}
